@@ -26,7 +26,11 @@ GStep ==
           \/ RecvReest(p) /\ Rec(Ev("RecvReest", p, 0, 0))
           \/ RecvFee(p) /\ Rec(Ev("RecvFee", p, 0, 0))
      \/ Disconnect /\ Rec(Ev("Disconnect", "A", 0, 0))
+     \/ SoftDisconnect /\ Rec(Ev("SoftDisconnect", "A", 0, 0))
      \/ \E p \in Party, r \in Rates : UpdateFee(p, r) /\ Rec(Ev("UpdateFee", p, r, 0))
+     \* another subsystem (chain arbitrator, chain watcher) touches the channel's status through a handle it
+     \* loaded long ago: nothing about the commitment state may change on disk (C02)
+     \/ \E p \in Party : Len(hist) % 9 = 4 /\ UNCHANGED vars /\ Rec(Ev("StaleTouch", p, 0, 0))
 GNext == Len(hist) < MaxLen /\ GStep
 GSpec == GInit /\ [][GNext]_<<vars, hist>>
 
